@@ -214,7 +214,7 @@ func runCheckActIn(c *Ctx, pkgs map[string]bool, doSplit bool) {
 		c.MissingAnchor("cmd/thruserv.serverLimits")
 		return
 	}
-	isLimitField := func(info *types.Info, e ast.Expr) string {
+	isLimitField := func(info *types.Info, e ast.Node) string {
 		name := ""
 		ast.Inspect(e, func(n ast.Node) bool {
 			if sel, ok := n.(*ast.SelectorExpr); ok {
@@ -362,6 +362,12 @@ func runCheckActIn(c *Ctx, pkgs map[string]bool, doSplit bool) {
 				if !inserting(fi) || !cfg.Reaches(condRef, r) {
 					return
 				}
+				if atomicAdmission(p, root, call, fi, func(g *FuncInfo) bool { return isLimitField(g.Info(), g.Body) == lim }) {
+					c.OK(fmt.Sprintf("split/%s/%s->%s", root.Name, lim, strings.TrimPrefix(fi.Name, fi.Pkg.Name+".")), call.Pos(),
+						"the early test is only an optimisation: the same limit is tested again by an admission function that "+types.ExprString(call.Fun)+" evaluates while holding its lock, in the critical section of the insertion")
+					nsplit++
+					return
+				}
 				nsplit++
 				c.Bad(fmt.Sprintf("split/%s/%s->%s", root.Name, lim, strings.TrimPrefix(fi.Name, fi.Pkg.Name+".")), call.Pos(),
 					fmt.Sprintf("limit %s is tested on data from %s (one critical section) and %s inserts later (another critical section): concurrent requests all pass the test before any of them inserts, so the limit is exceeded",
@@ -372,6 +378,81 @@ func runCheckActIn(c *Ctx, pkgs map[string]bool, doSplit bool) {
 	if nsplit == 0 {
 		c.OK("split/server-handlers", roots[0].Pos(), "no limit test in the server handlers is separated from the insertion it guards")
 	}
+}
+
+// atomicAdmission: the inserting call is handed a function (literal or closure variable) that tests the limit, and the callee
+// calls that parameter while holding its exclusive lock and returns without inserting when it says no.
+func atomicAdmission(p *Program, root *FuncInfo, call *ast.CallExpr, callee *FuncInfo, testsLimit func(*FuncInfo) bool) bool {
+	info := root.Info()
+	if callee == nil || callee.Type == nil || callee.Type.Params == nil {
+		return false
+	}
+	var params []types.Object
+	for _, fl := range callee.Type.Params.List {
+		for _, nm := range fl.Names {
+			params = append(params, callee.Info().Defs[nm])
+		}
+	}
+	ls := NewLockSpec()
+	for i, a := range call.Args {
+		if i >= len(params) {
+			break
+		}
+		var adm *FuncInfo
+		switch v := ast.Unparen(a).(type) {
+		case *ast.FuncLit:
+			adm = p.LitInfo(v)
+		case *ast.Ident:
+			if o, ok := ObjOf(info, v).(*types.Var); ok {
+				adm = p.ClosureOfVar(o)
+			}
+		}
+		if adm == nil || !testsLimit(adm) {
+			continue
+		}
+		// the callee (or a same-package function it forwards the parameter to) invokes the parameter under its lock, as a condition
+		var check func(g *FuncInfo, pv types.Object, depth int) bool
+		check = func(g *FuncInfo, pv types.Object, depth int) bool {
+			ok := false
+			gi := g.Info()
+			cfg := g.CFG()
+			cfg.Calls(func(r NodeRef, c2 *ast.CallExpr) {
+				if id, isID := ast.Unparen(c2.Fun).(*ast.Ident); isID && ObjOf(gi, id) == pv {
+					held := false
+					for _, h := range HeldAny(ls, g, r) {
+						if strings.HasPrefix(h, "W:") {
+							held = true
+						}
+					}
+					if _, _, _, isCond := CondEdges(r.B); isCond && r.I == len(r.B.Nodes)-1 && held {
+						ok = true
+					}
+					return
+				}
+				if depth == 0 {
+					return
+				}
+				cg := p.CalleeInfo(gi, c2)
+				if cg == nil || cg.Pkg != g.Pkg || cg.Type == nil || cg.Type.Params == nil {
+					return
+				}
+				j := 0
+				for _, fl := range cg.Type.Params.List {
+					for _, nm := range fl.Names {
+						if j < len(c2.Args) && ObjOf(gi, c2.Args[j]) == pv && check(cg, cg.Info().Defs[nm], depth-1) {
+							ok = true
+						}
+						j++
+					}
+				}
+			})
+			return ok
+		}
+		if check(callee, params[i], 1) {
+			return true
+		}
+	}
+	return false
 }
 
 func runSessionLife(c *Ctx) {
